@@ -411,6 +411,7 @@ Qed.
 Definition calm (o : op) : Prop :=
   match o with
   | SlashVal _ _ => False
+  | SlashValPast _ _ _ _ _ => False
   | EnvVal _ tok shr => shr = tok * dec_one
   | ExportImport => Gen_OracleSlash.export_all_oracles = true
   | _ => True
@@ -455,6 +456,8 @@ Proof.
   - contradiction.
   - cbn in Co. subst shr. unfold env_val in H. inversion H; subst; clear H. destruct ST as (R & ST).
     split; [unfold rate1, set_vals_deleg; proj; apply rate1V_set; exact R | exact ST].
+  - contradiction.
+  - unfold env_stat in H. inversion H; subst; clear H. destruct ST as (R & ST). split; [exact R | exact ST].
   - unfold exec_batch in H. guards H. inversion H; subst. eapply sinv_frame; eauto.
   - cbn in Co. destruct (export_import_preserves_registry Co _ _ I K H) as (RS & _ & _ & HP & _ & HD & _ & _ & _ & _ & HG & HV).
     destruct ST as (R & S1 & S2 & S3 & S4). split; [unfold rate1; rewrite HV; exact R|].
